@@ -37,6 +37,15 @@ def queries():
                 ku = {14: 6, 15: 6, 16: 6, 8: cap + 4}.get(op, big)
                 qs.append(Q('%s_cap%d_%s' % (nm, cap, tier), 'C16_stream.c', 'sstream.cpp', config='small', defs={'OP': op, 'CAPK': capk, 'A': aa}, unwind=ku, hunwind=big,
                             heap_cap=max(4 * cap, 64 if aa > 12 else 32), object_bits=10, tiers=(tier,), bound={'op': nm, 'capacity': cap, 'appended<=': aa}, timeout=900 if tier == 'quick' else 3000))
+    # the remaining text inserters (capacity 8): char8_t*, u8string_view, u16string_view / u16string, u32string_view / u32string, wchar_t*, wstring_view / wstring
+    for nm, op, extra, tiers in (('ins_char8_cstr', 12, {'CHAR8_FORM': 1}, ('quick', 'thorough')), ('ins_u8string_view', 18, {'CHAR8_FORM': 1}, ('quick', 'thorough')),
+                                 ('ins_u16string_view', 15, {'WIDE_FORM': 1}, ('thorough',)), ('ins_u16string', 15, {'WIDE_FORM': 2}, ('quick', 'thorough')),
+                                 ('ins_u32string_view', 16, {'WIDE_FORM': 1}, ('thorough',)), ('ins_u32string', 16, {'WIDE_FORM': 2}, ('quick', 'thorough')),
+                                 ('ins_wchar_cstr', 16, {'WIDE_FORM': 3}, ('thorough',)), ('ins_wstring_view', 16, {'WIDE_FORM': 4}, ('thorough',)), ('ins_wstring', 16, {'WIDE_FORM': 5}, ('quick', 'thorough'))):
+        aa = 4 if op in (12, 18) else 1
+        d = {'OP': op, 'CAPK': 0, 'A': aa}; d.update(extra)
+        qs.append(Q('%s_cap8' % nm, 'C16_stream.c', 'sstream.cpp', config='small', defs=d, unwind={15: 6, 16: 6}.get(op, 8 * 4 + aa + 12), hunwind=8 * 4 + aa + 12, heap_cap=32, object_bits=10, tiers=tiers,
+                    bound={'op': nm, 'capacity': 8}, timeout=900 if 'quick' in tiers else 3000))
     # growth under a failing allocation (the fault quantifier proper is C19; these two queries keep the growth path of this property honest about it)
     for op, nm in ((1, 'append'), (3, 'append_char')):
         qs.append(Q('%s_cap8_alloc_failure' % nm, 'C16_stream.c', 'sstream.cpp', config='small', defs={'OP': op, 'CAPK': 0, 'A': 12, 'FAULT': 2}, unwind=56, hunwind=56, heap_cap=32, object_bits=10,
